@@ -179,6 +179,33 @@ def run_group_present(res, stack, nserv, extra, op, warm, tier, rng):
         res.case((stack, nserv, tuple(sorted(extra.items())), op[0], repr(op[1:]), warm, "present", tuple(sorted(plan.items()))) if fired else None)
 
 
+def big_batches_present(res, tier, rng):
+    """more than a thousand present keys in one multi-key read (a client that slices large requests): a failure anywhere in the
+    exchange makes the whole call a miss - {} - not the part that happened to arrive"""
+    nkeys = 1500
+    items = {b"big%04d" % j: (b"v%d" % j, 0) for j in range(nkeys)}
+    keys = ["big%04d" % j for j in range(nkeys)]
+    for stack, nserv in (("client", 1), ("pooled", 1), ("hash", 1)):
+        for opn in ("get_many", "gets_many"):
+            case = base_case(stack, nserv, {}, (opn, (keys,), {}), 0, prefill={0: dict(items)})
+            o0 = history.execute(case)
+            hit = o0.calls[case["faulted"]]["out"]
+            if hit[0] != "ret" or len(hit[1]) != nkeys:
+                res.violation("big-batch:undisturbed-read-incomplete:%s:%s" % (stack, opn), "%d of %d present keys returned" % (len(hit[1]) if hit[0] == "ret" else -1, nkeys), case)
+                continue
+            plans, calls = history.single_fault_plans(case, o0, "quick", rng, reply_faults=False)
+            # every socket call of the exchange, one hard fault each (recv faults at each of the ~10 receives)
+            plans = [p_ for p_ in plans if list(p_.values())[0] in ("reset", "eof", "timeout", "brokenpipe")]
+            for plan in plans:
+                c = dict(case)
+                c["faults"] = plan
+                o = history.execute(c)
+                res.count("failures_fired", len(o.net.fired))
+                res.count("big_batch_reads_under_faults")
+                judge(res, c, o, ("ret", {}), "plan", hit=hit)
+                res.case((stack, opn, "big-present", tuple(sorted(plan.items()))) if o.net.fired else None)
+
+
 def run_group(res, stack, nserv, extra, op, warm, tier, rng):
     case = base_case(stack, nserv, extra, op, warm)
     miss = miss_reference(case)
@@ -343,6 +370,8 @@ def shard(tier, seed, idx, n):
     for si, (stack, nserv, extra) in enumerate(STACKS):
         if si % n == idx:
             caller_fills_result(res, stack, nserv, extra, tier)
+    if idx == n - 1:
+        big_batches_present(res, tier, random.Random(seed + 77))
     res.extra["exhaustive"] = True
     res.extra["exhaustive_part"] = "single-fault plans over every socket call of every read on every stack; server-down and bad-item scenarios"
     return res
